@@ -1616,7 +1616,112 @@ class C04(Prop):
                     res.oracle_failures.append(dict(key=f"C04|type-{tid}|{kind}", case=case, detail=f"{fld} {got[:120]} reference {ref[:120] if ref else None}"))
 
 
-REGISTRY = {"C04": C04(), "C11": C11(), "C13": C13(), "C06": C06(), "C15": C15(), "C16": C16(), "C05": C05(), "C18": C18(), "C08": C08(), "C07": C07(), "C03": C03(), "C02": C02(), "C20": C20(), "C09": C09(), "C10": C10(), "C14": C14(), "C12": C12()}
+# ------------------------------------------------------------------------------------------
+# C19
+
+class C19(Prop):
+    rule = ("typed cases: the (type, text) stream of C04; every accepted text gives a Rust value x, for which to_string(x) must be the Lean rendering of the "
+            "value the text denotes (which the theorem render_toJ equates with rendering to_value's tree), to_value(x) must dump and compare (==, both "
+            "directions) as from_str::<Value>(to_string(x)), from_value(to_value(x)) == x and from_str(to_string(x)) == x; 18 special values where one "
+            "route fails (non-finite floats, 128-bit integers outside the 64-bit range, key kinds) against the expected outcome of both routes; equality laws "
+            "on pairs of documents (fixed pairs incl. duplicated keys, generated documents paired with a member permutation / a mutation / another document): "
+            "reflexive, symmetric, equal under every way of building the same value (clone, re-serialization, through serde_json, promoted copy), "
+            "agreeing with the Lean equality model, with serde_json's equality and with comparison against primitives; non-trivial = accepted typed case "
+            "or a pair of containers")
+    trusted = ["f32 values are exempt from the text/DOM comparison (documented: f32 goes through f64, as in serde_json)",
+               "'same under every way of building' and agreement with serde_json's equality are required for duplicate-free documents only"]
+    assumptions = []
+    SPECIAL = {
+        "f64_nan": ("6e756c6c", "Err"), "f64_inf": ("6e756c6c", "Err"), "f64_ninf": ("6e756c6c", "Err"), "f32_nan": ("6e756c6c", "Err"),
+        "vec_nan": ("5b312e302c6e756c6c5d", "Err"),
+    }
+
+    def explore(self, ctx, res):
+        name = "c19"
+        cases_path = generate(ctx, name)
+        impl, model, crashed, err = run_stream(ctx, name, cases_path)
+        with open(cases_path) as f:
+            cases = f.read().splitlines()
+        if crashed or len(impl) != len(cases):
+            idx = min(len(impl), len(cases) - 1)
+            res.oracle_failures.append(dict(key="c19:process-abort", case=cases[idx], detail=f"harness exited abnormally after {len(impl)} of {len(cases)} cases: {err[-300:]}"))
+        n = min(len(impl), len(cases))
+        for i in range(n):
+            case = cases[i]
+            res.evaluations += 1
+            I = ctx["parse_fields"](impl[i])
+            M = ctx["parse_fields"](model[i]) if model and i < len(model) else {}
+            if len(res.samples) < 6 and i % max(1, n // 6) == 0:
+                res.samples.append({"case": case[:200], "impl": impl[i][:200], "model": (model[i][:200] if model and i < len(model) else None)})
+            if impl[i].startswith("PANIC"):
+                res.oracle_failures.append(dict(key="C19|panic", case=case, detail="the library panicked"))
+                continue
+            tag = case.split(" ")[0]
+            if tag == "c19x":
+                nm = case.split(" ")[1]
+                res.distribution["special"] += 1
+                text, dom = I.get("text"), I.get("dom")
+                if nm in self.SPECIAL:
+                    want = self.SPECIAL[nm]
+                    if (text, dom) != want:
+                        res.oracle_failures.append(dict(key=f"C19|special|{nm}", case=case, detail=f"text={text} dom={dom} expected {want}"))
+                else:
+                    # 128-bit integers and key kinds: the same routes succeed as with serde_json, with the same text
+                    ok = (text == I.get("ref.text")) and ((dom == "Err") == (I.get("ref.dom") == "Err"))
+                    if not ok:
+                        res.oracle_failures.append(dict(key=f"C19|special|{nm}", case=case, detail=impl[i][:300]))
+                continue
+            if tag == "c19e":
+                if I.get("laws") == "SKIP":
+                    continue
+                res.distribution["pair"] += 1
+                if "5b" in case or "7b" in case:
+                    res.nontrivial(case)
+                dup = M.get("dup") == "A"
+                for fld in ("refl", "sym", "prim"):
+                    if I.get(fld) != "A":
+                        res.oracle_failures.append(dict(key=f"C19|equality|{fld}", case=case, detail=impl[i][:200]))
+                if not dup:
+                    for fld in ("build", "same"):
+                        if I.get(fld) != "A":
+                            res.oracle_failures.append(dict(key=f"C19|equality|{fld}", case=case, detail=impl[i][:200]))
+                    if "ref" in I and I.get("ref") != I.get("eq"):
+                        res.oracle_failures.append(dict(key="C19|equality|differs-from-reference-equality", case=case, detail=impl[i][:200]))
+                if model is not None and M.get("m.eq") not in (None, "SKIP"):
+                    if M.get("m.eq") != I.get("eq"):
+                        res.model_disagreements.append(dict(key="c19:equality-model-differs", case=case, detail=f"impl eq={I.get('eq')} model {model[i][:100]}"))
+                continue
+            # typed case
+            tid = case.split(" ")[1]
+            if I.get("x") != "A":
+                continue
+            res.nontrivial(case)
+            res.distribution[f"type:{tid}"] += 1
+            spec = M.get("spec")
+            s_ = I.get("s")
+            if spec not in (None, "NOTMODELLED", "FLOAT", "R") and s_ != spec:
+                res.oracle_failures.append(dict(key=f"C19|type-{tid}|to_string-differs-from-rendering-of-the-value", case=case, detail=f"impl {s_[:160] if s_ else None} spec {spec[:160]}"))
+            if spec not in (None, "NOTMODELLED", "FLOAT", "R") and M.get("viadom") != spec:
+                res.model_disagreements.append(dict(key="c19:render_toJ-does-not-hold-on-the-model", case=case, detail=model[i][:200]))
+            com = I.get("commute", "")
+            if com.startswith("ERR"):
+                # one route failed: only 128-bit integers outside the 64-bit range may do that
+                ok128 = False
+                if tid in ("10", "11") and com == "ERR(false,true)":
+                    try:
+                        v = int(bytes.fromhex(s_).decode())
+                        ok128 = v > 2**64 - 1 or v < -2**63
+                    except Exception:
+                        ok128 = False
+                if not ok128:
+                    res.oracle_failures.append(dict(key=f"C19|type-{tid}|one-route-fails", case=case, detail=impl[i][:200]))
+                continue
+            for fld in ("commute", "eqdom", "fromv", "tos", "froms"):
+                if I.get(fld) != "A":
+                    res.oracle_failures.append(dict(key=f"C19|type-{tid}|{fld}", case=case, detail=impl[i][:200]))
+
+
+REGISTRY = {"C19": C19(), "C04": C04(), "C11": C11(), "C13": C13(), "C06": C06(), "C15": C15(), "C16": C16(), "C05": C05(), "C18": C18(), "C08": C08(), "C07": C07(), "C03": C03(), "C02": C02(), "C20": C20(), "C09": C09(), "C10": C10(), "C14": C14(), "C12": C12()}
 for _k, _v in REGISTRY.items():
     _v.pid = _k
 
